@@ -29,6 +29,7 @@ int Broker::send_packet(const ConnPtr& c, const ref::Packet& p, BKind kind, int 
     BPacket b; b.id = (int)w_.h.bpkts.size(); b.conn = c->id; b.seq = w_.next_seq(); b.t = w_.now();
     b.pkt = p; b.raw = ref::encode(p); b.end_offset = c->b2c_sent + b.raw.size(); b.for_cpkt = for_cpkt; b.out_msg = out_msg; b.kind = kind;
     w_.h.bpkts.push_back(b);
+    c->undelivered_bpkts.push_back(b.id);
     w_.log(Ev::brk_tx, c->id, b.id, for_cpkt, p.str());
     w_.broker_send(c, b.raw, b.id, 1);
     return b.id;
@@ -46,6 +47,7 @@ void Broker::send_raw(const ConnPtr& c, const std::string& bytes, BKind kind, co
         b.pkt = d.pkt; b.raw = bytes.substr(off, len); b.wellformed = d.status == ref::Status::ok; b.kind = kind;
         b.end_offset = c->b2c_sent + off + len;
         w_.h.bpkts.push_back(b);
+        c->undelivered_bpkts.push_back(b.id);
         w_.log(Ev::brk_tx, c->id, b.id, -1, std::string(note) + " " + (b.wellformed ? d.pkt.str() : "MALFORMED(" + d.error + ") " + vu::hex(b.raw, 24)));
         off += len;
     }
@@ -96,17 +98,15 @@ void Broker::on_bytes(const ConnPtr& c, const std::string& bytes, int) {
     auto* b = state(c);
     if (!b || b->closed) return;
     c->c2b_pending += bytes;
-    while (!c->c2b_pending.empty() && !b->closed) {
-        auto d = ref::decode(c->c2b_pending, ref::Dir::from_client);
+    size_t pos = 0;   // parsed prefix of c2b_pending (erased once at the end: batches can hold tens of thousands of packets)
+    struct Trim { std::string& s; size_t& pos; ~Trim() { s.erase(0, pos); } } trim{c->c2b_pending, pos};
+    while (pos < c->c2b_pending.size() && !b->closed) {
+        auto d = ref::decode(std::string_view(c->c2b_pending).substr(pos), ref::Dir::from_client);
         if (d.status == ref::Status::incomplete) break;
         int cpkt = -1;
-        for (int i = (int)w_.h.cpkts.size() - 1; i >= 0; --i) {
-            auto& k = w_.h.cpkts[i];
-            if (k.conn == c->id && k.offset == b->rx_offset) { cpkt = i; break; }
-            if (k.conn == c->id && k.offset < b->rx_offset) break;
-        }
+        { auto it = c->cpkt_at.find(b->rx_offset); if (it != c->cpkt_at.end()) cpkt = it->second; }
         if (d.status == ref::Status::malformed) {
-            w_.log(Ev::brk_rx, c->id, cpkt, 0, "MALFORMED from client: " + d.error + " " + vu::hex(c->c2b_pending, 32));
+            w_.log(Ev::brk_rx, c->id, cpkt, 0, "MALFORMED from client: " + d.error + " " + vu::hex(c->c2b_pending.substr(pos, 32), 32));
             ref::Packet dis; dis.type = ref::DISCONNECT; dis.rc = 0x81;
             send_packet(c, dis, BKind::normal);
             b->closed = true;
@@ -116,7 +116,7 @@ void Broker::on_bytes(const ConnPtr& c, const std::string& bytes, int) {
         if (cpkt >= 0) { auto& k = w_.h.cpkts[cpkt]; k.reached_broker = true; k.rx_seq = w_.next_seq(); k.rx_t = w_.now(); }
         w_.log(Ev::brk_rx, c->id, cpkt, (int64_t)b->rx_offset, d.pkt.str());
         b->rx_offset += d.consumed;
-        c->c2b_pending.erase(0, d.consumed);
+        pos += d.consumed;
         if (c->stalled) continue;
         handle(c, *b, d, cpkt);
     }
@@ -280,6 +280,17 @@ void Broker::handle(const ConnPtr& c, BConn& b, const ref::Decoded& d, int cpkt)
     switch (p.type) {
         case ref::CONNECT: w_.log(Ev::note, c->id, cpkt, 0, "protocol: second CONNECT"); break;
         case ref::PUBLISH:
+            if (!cfg.only_ack_topics.empty() && p.qos > 0) {
+                bool hit = false; size_t st = 0;
+                while (st <= cfg.only_ack_topics.size()) {
+                    size_t e = cfg.only_ack_topics.find('|', st);
+                    std::string part = cfg.only_ack_topics.substr(st, e == std::string::npos ? std::string::npos : e - st);
+                    if (!part.empty() && p.topic.find(part) != std::string::npos) hit = true;
+                    if (e == std::string::npos) break;
+                    st = e + 1;
+                }
+                if (!hit) break;
+            }
             if (p.qos == 1) {
                 later(c, [this, c, p, cpkt] {
                     ref::Packet a; a.type = ref::PUBACK; a.pid = p.pid; a.rc = ack_rc(ref::PUBACK); a.props = ack_props();
